@@ -28,7 +28,8 @@ REJECT = "ValueError: Can't use eval operator in safe mode"
 def value_class(text: str, plain: bool) -> str:
     """Class of the value text of an assignment (classification of the INPUT, by parsing it):
     'special' one of the parser's plain forms (only looked for under plain '='), 'lit' a Python literal,
-    'expr' a Python expression that is not a literal, 'junk' not an expression."""
+    'litnf' a literal except for the names inf / nan (repr of non-finite floats), 'expr' any other Python expression,
+    'junk' not an expression."""
     import ast
     if plain:
         if re.match(r"\[\[(\w+)]]", text) or text.startswith("<") or re.match(r"\A\w+-\w+-.*", text) or text in ("inf", "-inf", "nan"):
@@ -40,6 +41,16 @@ def value_class(text: str, plain: bool) -> str:
     try:
         ast.literal_eval(text)          # the standard library's own definition of "literal"
         return "lit"
+    except Exception:  # noqa
+        pass
+    # a literal except that it spells non-finite floats the way repr() does (inf, nan): still only constants.
+    # The text language has to take these for pretty-printed subfields holding an infinity to round-trip.
+    class NF(ast.NodeTransformer):
+        def visit_Name(self, node):
+            return ast.copy_location(ast.Constant(float(node.id)), node) if node.id in ("inf", "nan") else node
+    try:
+        ast.literal_eval(NF().visit(ast.parse(text.lstrip(" \t"), mode="eval")))
+        return "litnf"
     except Exception:  # noqa
         return "expr"
 
@@ -160,7 +171,10 @@ def wire_message(rng, tmpl, style):
                     continue
                 if ty == "Variable" and style == "pretty" and (tmpl.name, b.name, v.name) in se.SUBFIELD_SERIALIZERS:
                     n = rng.choice(_PAYLOAD_LENS)
-                    blk[v.name] = bytes(n) if rng.random() < 0.6 else bytes(rng.randrange(256) for _ in range(n))
+                    c = rng.random()
+                    # zeros, random bytes, or a run of float32 +/-infinity (a legal float value wherever the subfield holds floats)
+                    blk[v.name] = (bytes(n) if c < 0.5 else bytes(rng.randrange(256) for _ in range(n)) if c < 0.8
+                                   else (rng.choice([b"\x00\x00\x80\x7f", b"\x00\x00\x80\xff"]) * (n // 4 + 1))[:n])
                 elif ty == "Variable" and isinstance(blk[v.name], (bytes, bytearray)) and rng.random() < 0.5:
                     # strings as they come off the wire: NUL-terminated text, embedded NULs, non-UTF8, many lines
                     maxlen = 255 if v.size == 1 else 2000
@@ -233,7 +247,8 @@ def _sibling_domain(se, tmpl, bname, field):
 
 
 _CTX_PAYLOADS = [b"", b"Ahern/128/128/25", b"Ahern/128/128/25\x00", "caf\u00e9 \u2603".encode("utf8"), b"\x01\x02\xff\x00\x10",
-                 b"\x00", bytes(4), bytes(16), bytes(17), bytes(32), bytes(48), b"\xff" * 16]
+                 b"\x00", bytes(4), bytes(16), bytes(17), bytes(32), bytes(48), b"\xff" * 16,
+                 b"\x00\x00\x80\x7f" * 4, b"\x00\x00\x80\x7f" * 7]        # float32 +inf where the sub-template holds floats
 
 
 def context_cases(rng, thorough):
@@ -369,9 +384,11 @@ def classify_text(m, m2, tmpl, ev, beautify):
     if beautify and out.startswith(("ValueError: malformed node", "SyntaxError")):
         # the printed pretty value itself is not a Python literal (a non-finite float inside the subfield's value)
         nl = ["%s.%s.%s" % (m.name, b["name"], v["n"]) for b in ev["m"]["blocks"] for inst in b["inst"] for v in inst
-              if v["ser"] and v["pretty"] == "ok" and v["pvk"] in ("expr", "junk")]
+              if v["ser"] and v["pretty"] == "ok" and v["pvk"] in ("expr", "junk", "litnf")]
         if nl:
-            return {"pretty-subfield-not-literal@" + nl[0]}
+            nf = [n for n, k in ((n_, v_["pvk"]) for b in ev["m"]["blocks"] for inst in b["inst"] for v_ in inst
+                                 for n_ in ["%s.%s.%s" % (m.name, b["name"], v_["n"])]) if k == "litnf"]
+            return {("pretty-subfield-nonfinite-float@" + nf[0]) if nf else ("pretty-subfield-not-literal@" + nl[0])}
     has_inf = any(isinstance(v, float) and math.isinf(v) for bl in m.blocks.values() for b in bl for v in b.vars.values())
     if has_inf and out.startswith("ValueError: malformed node or string"):
         return {"nonfinite-float"}
@@ -461,7 +478,7 @@ def fuzz_event(text, safe):
     toks = tokenize(text)
     _EVALS[0] = 0
     st, r = impl_call(H.from_human_string, text, None, {"HIT": _hit}, safe)
-    okind = "ok" if st == "ok" else ("arith" if str(r).split(":")[0] in ("ZeroDivisionError", "OverflowError", "NameError") else "exc")
+    okind = "ok" if st == "ok" else ("arith" if str(r).split(":")[0] in ("ZeroDivisionError", "NameError") else "exc")
     return {"ev": "Fuzz", "toks": toks, "safe": safe, "outcome": "ok" if st == "ok" else r, "okind": okind, "evaluated": _EVALS[0] > 0}
 
 
